@@ -129,6 +129,8 @@ func runC03(sc *LifeScript) *sim.Outcome {
 		switch op.K {
 		case "send":
 			text := s.Text(who, capLen(op.L, 3, s.frag(who)), op.F%3) // filler kinds without OTR markers / tag lookalikes
+			// user text may itself look like protocol traffic
+			text = append([]byte([]string{"", "", "", "?OTR", "?OTRv23? ", "?OTR Error: ", "?OTR:AAMD", "?OTR|", "?OTR?"}[op.X%9]), text...)
 			tok := findToken(text)
 			enc := w.P[who].C.IsEncrypted()
 			fin := r.finished[who] && !enc
